@@ -9,7 +9,7 @@
      describe  parsePEMBlock;  cert_info parseCertificate;  enc_name EncryptionAlgorithm().Name
      secret    java.UnmarshalReader on a SealedObject (secret_ok: consumes exactly the blob) *)
 From WI Require Import Lib.Base Lib.Info Lib.Strings Lib.Time Model.Containers Proofs.Containers.
-From WI Require Model.Base64.
+From WI Require Model.Base64 Model.Dispatch.
 Open Scope N_scope.
 
 (* ---------------- authorized_keys / known_hosts ---------------- *)
@@ -266,6 +266,34 @@ Print Assumptions C06_pem_terminates.
 Theorem C06_pem_bytes_example : bundle_text_ok example_blocks [] = true /\ length (listed_blocks example_blocks) = 4%nat.
 Proof. exact example_blocks_ok. Qed.
 Print Assumptions C06_pem_bytes_example.
+
+(* ---------------- PEM bundles through file.Inspect: every label ---------------- *)
+
+(* The bundle theorems above quantify over ALL labels (block_ok asks only that a label has no LF): certificates,
+   keys, requests, CRLs, PKCS#7, parameters, unknown labels, labels in other case or with extra blanks - a block
+   the tool does not describe is still an entry.  What they say of PEMFile holds of file.Inspect as long as no
+   row of the format table gets in front of the generic "-----BEGIN " row for such a file.  pem_routed (boolean,
+   evaluated on the table regenerated from the running code): every row in front of the PEMFile row has no
+   sniffer, and each of its magics either cannot start a text that starts with "-----BEGIN " or is PGP armor.
+   Then, for EVERY bundle whose first bytes are a block that is not PGP armor, under EVERY file name no row
+   claims, file.Inspect reports exactly what PEMFile reports: all the non-PGP blocks, in order. *)
+Theorem C06_pem_table_routed : pem_routed Dispatch.table = true.
+Proof. exact table_pem_routed. Qed.
+Print Assumptions C06_pem_table_routed.
+
+Theorem C06_pem_bundle_inspected : forall sniff parse describe d name b items tail,
+  (forall data, parse (bs "PEMFile") data = pem_file pem_dec describe data) ->
+  (forall r, In r Dispatch.table -> Dispatch.matches_name r name = Ok false) ->
+  bundle_text_ok (([], b) :: items) tail = true -> is_pgp_type (ab_label b) = false ->
+  (forall b', In b' (listed_blocks (([], b) :: items)) -> describe (ablock_block b') = Ok (d (ablock_block b'))) ->
+  Dispatch.inspect sniff parse name (bundle_text (([], b) :: items) tail) =
+    Ok (match map (fun b' => d (ablock_block b')) (listed_blocks (([], b) :: items)) with
+        | [i] => i
+        | k => Info (bs "multiple PEM blocks") [] k
+        end)
+  /\ (1 <= length (listed_blocks (([], b) :: items)))%nat.
+Proof. exact pem_bundle_inspected. Qed.
+Print Assumptions C06_pem_bundle_inspected.
 
 (* ---------------- Java keystores ---------------- *)
 
